@@ -26,6 +26,9 @@ EXPLANATION = (
     "chained assignment or a bare parameter makes one object be multiplied twice). "
     "Not decided: pointwise equality for arcs (values); R02.6 is the static shadow of that defect."
 )
+TECHNIQUE = (
+    "static analysis (no execution): field-coverage lint over segment classes (constructor fields vs fields touched by *=, __getitem__, __copy__, __eq__); def-use closure for copy-then-multiply; operator type-dispatch following over the class hierarchy; exact canonical forms for reify algebra"
+)
 ASSUMPTIONS = [
     "Matrix.point_in_matrix_space / matrix_multiply are the SVG definitions (decided in C04).",
     "Point-valued fields are recognised by assignment from Point(...) in the class's constructors.",
